@@ -514,3 +514,110 @@ theorem traced_sim (on : Bool) : Sim (traced I snap on) I Prod.fst where
 
 end Traced
 end Fsic
+
+/-! ### Status / iterations frame and the period loop of `solve()` -/
+namespace Fsic
+section Frame
+variable {σ V : Type} (I : Interp σ V) (o : Opts) (n : Nat) (t : Int)
+
+/-- Bookkeeping series after `stamp`: either untouched or changed at the one position `t` denotes. -/
+theorem stamp_series {σ} (w : World σ) (s : Status) (k : Int) :
+    ((stamp w n t s k).status = w.status ∧ (stamp w n t s k).iters = w.iters) ∨
+    ∃ i, pyIndex n t = some i ∧ (stamp w n t s k).status = setAt w.status i s
+      ∧ (stamp w n t s k).iters = setAt w.iters i k := by
+  unfold stamp
+  cases h : pyIndex n t with
+  | none => left; exact ⟨rfl, rfl⟩
+  | some i => right; exact ⟨i, rfl, rfl, rfl⟩
+
+/-- `solve_t(t)` changes `status` / `iterations` at most at position `t`. -/
+theorem solveT_series_frame (w : World σ) (j : Nat) (hj : pyIndex n t ≠ some j) :
+    (solveT I o n t w).1.status[j]? = w.status[j]? ∧ (solveT I o n t w).1.iters[j]? = w.iters[j]? := by
+  have key : ∀ (w' : World σ), w'.status = w.status → w'.iters = w.iters → ∀ (s : Status) (k : Int),
+      (stamp w' n t s k).status[j]? = w.status[j]? ∧ (stamp w' n t s k).iters[j]? = w.iters[j]? := by
+    intro w' h1 h2 s k
+    rcases stamp_series n t w' s k with ⟨a, b⟩ | ⟨i, hi, a, b⟩
+    · rw [a, b, h1, h2]; exact ⟨rfl, rfl⟩
+    · have hne : i ≠ j := by intro e; apply hj; rw [hi, e]
+      rw [a, b, h1, h2]
+      exact ⟨setAt_getElem?_ne _ _ _ _ hne, setAt_getElem?_ne _ _ _ _ hne⟩
+  unfold solveT
+  split
+  · exact ⟨rfl, rfl⟩
+  · split
+    · exact ⟨rfl, rfl⟩
+    · split
+      · exact ⟨rfl, rfl⟩
+      · unfold solveCore
+        split
+        · exact ⟨rfl, rfl⟩
+        · rcases hbv : I.before o (seed I o t w.user) t with ⟨u2, b⟩
+          cases b with
+          | true => exact ⟨rfl, rfl⟩
+          | false =>
+            simp only
+            generalize loop I o t o.maxIter.toNat 1 u2 (I.check (seed I o t w.user) t) = r
+            cases r with
+            | done u s k => simp only [finish]; exact key (withUser w u) rfl rfl _ _
+            | evalRaised u k =>
+              simp only [finish]
+              split
+              · exact key (withUser w u) rfl rfl _ _
+              · exact ⟨rfl, rfl⟩
+            | nonFinite u k => simp only [finish]; exact key (withUser w u) rfl rfl _ _
+            | afterRaised u k => exact ⟨rfl, rfl⟩
+            | badErrors u k => exact ⟨rfl, rfl⟩
+
+theorem solveT_lengths (w : World σ) :
+    (solveT I o n t w).1.status.length = w.status.length ∧ (solveT I o n t w).1.iters.length = w.iters.length := by
+  have key : ∀ (w' : World σ), w'.status = w.status → w'.iters = w.iters → ∀ (s : Status) (k : Int),
+      (stamp w' n t s k).status.length = w.status.length ∧ (stamp w' n t s k).iters.length = w.iters.length := by
+    intro w' h1 h2 s k
+    rcases stamp_series n t w' s k with ⟨a, b⟩ | ⟨i, hi, a, b⟩
+    · rw [a, b, h1, h2]; exact ⟨rfl, rfl⟩
+    · rw [a, b, h1, h2]; exact ⟨setAt_length _ _ _, setAt_length _ _ _⟩
+  unfold solveT
+  split
+  · exact ⟨rfl, rfl⟩
+  · split
+    · exact ⟨rfl, rfl⟩
+    · split
+      · exact ⟨rfl, rfl⟩
+      · unfold solveCore
+        split
+        · exact ⟨rfl, rfl⟩
+        · rcases hbv : I.before o (seed I o t w.user) t with ⟨u2, b⟩
+          cases b with
+          | true => exact ⟨rfl, rfl⟩
+          | false =>
+            simp only
+            generalize loop I o t o.maxIter.toNat 1 u2 (I.check (seed I o t w.user) t) = r
+            cases r with
+            | done u s k => simp only [finish]; exact key (withUser w u) rfl rfl _ _
+            | evalRaised u k =>
+              simp only [finish]
+              split
+              · exact key (withUser w u) rfl rfl _ _
+              · exact ⟨rfl, rfl⟩
+            | nonFinite u k => simp only [finish]; exact key (withUser w u) rfl rfl _ _
+            | afterRaised u k => exact ⟨rfl, rfl⟩
+            | badErrors u k => exact ⟨rfl, rfl⟩
+
+/-- The period loop over a concatenation: run the first part; go on (from the world and the accumulated
+    results it produced) only if it completed without an exception. -/
+theorem solveList_append (ps qs : List Nat) (w : World σ) (acc : List Nat) (fs : List Bool) :
+    solveList I o n (ps ++ qs) w acc fs =
+      match solveList I o n ps w acc fs with
+      | (w', .ok rp rf) => solveList I o n qs w' rp.reverse rf.reverse
+      | other => other := by
+  induction ps generalizing w acc fs with
+  | nil => simp [solveList]
+  | cons p ps ih =>
+    simp only [List.cons_append, solveList]
+    rcases h : solveT I o n (↑p) w with ⟨w', r⟩
+    cases r with
+    | ret b => simp only; rw [ih]
+    | _ => simp
+
+end Frame
+end Fsic
